@@ -14,7 +14,7 @@ import (
 func init() {
 	register(Property{
 		ID:          "C15",
-		Explanation: "Decided statically (structural necessary conditions of the round trip): R1 the argument splitter of ParseTypeRef tracks bracket nesting with an integer depth that is incremented on '[' , decremented on ']' and compared with 0 before a ',' splits (a boolean cannot represent depth >= 2 of the recursive grammar); R2 the delimiter bytes written by TypeRef.String are exactly the ones ParseTypeRef reads and neither side trims; R3 ParseRef, ParseTypeRef and PkgImportPathAndExpose bound the search by strings.Index(s, \"[\") > 0 and split at strings.LastIndex(base, \".\") > 0; R4 Walk recurses unconditionally over every element of TypeList and the namer's rewrite loop handles each node with a non-empty path by exactly one of {blank own package, AddType + LocalNameOf}. R4 also: the visited node is written only by the two path rewrites; R5 what a helper searches for inside the path half of PkgImportPathAndExpose is a constant delimited by '/' on both sides; R6 every name the namer hands out went through the rewriter (C11.R6). R7 a binding of the import tracker is made once and never changed (C03.R4); R8 text reaches the naming system whenever it parses as a reference (C03.R16). R1 also: the scan ranges over the string it cuts (byte offsets). NOT decided: parse(s).String() == s as an equation over all strings (value level).",
+		Explanation: "Decided statically (structural necessary conditions of the round trip): R1 the argument splitter of ParseTypeRef tracks bracket nesting with an integer depth that is incremented on '[' , decremented on ']' and compared with 0 before a ',' splits (a boolean cannot represent depth >= 2 of the recursive grammar); R2 the delimiter bytes written by TypeRef.String are exactly the ones ParseTypeRef reads and neither side trims; R3 ParseRef, ParseTypeRef and PkgImportPathAndExpose bound the search by strings.Index(s, \"[\") > 0 and split at strings.LastIndex(base, \".\") > 0; R4 Walk recurses unconditionally over every element of TypeList and the namer's rewrite loop handles each node with a non-empty path by exactly one of {blank own package, AddType + LocalNameOf}. R4 also: the visited node is written only by the two path rewrites; R5 what a helper searches for inside the path half of PkgImportPathAndExpose is a constant delimited by '/' on both sides; R6 every name the namer hands out went through the rewriter (C11.R6). R7 a binding of the import tracker is made once and never changed (C03.R4); R8 text reaches the naming system whenever it parses as a reference (C03.R16). R1 also: the scan ranges over the string it cuts (byte offsets). NOT decided: parse(s).String() == s as an equation over all strings (value level). Round 8: R9 = C03.R17 (Ref(path, name) answers exactly that path and name).",
 		Assumptions: commonAssumptions,
 		Run:         runC15,
 	})
